@@ -545,3 +545,48 @@ pub mod to_str_owned {
         h.to_str().unwrap().into_owned()
     }
 }
+//@ drain_slice_survives_next must_fail row=common::drain::Drain::as_slice
+pub mod drain_slice_survives_next {
+    // the remaining-items view is tied to `&self`: it cannot be read after the drain advanced
+    pub fn f() -> u8 {
+        let mut v = hipstr::vecs::ThinVec::from_slice_copy(&[1u8, 2, 3]);
+        let mut d = v.drain(..);
+        let s = d.as_slice();
+        let _ = d.next();
+        drop(d);
+        s[0]
+    }
+}
+//@ drain_slice_read_first must_compile row=-
+pub mod drain_slice_read_first {
+    pub fn f() -> u8 {
+        let mut v = hipstr::vecs::ThinVec::from_slice_copy(&[1u8, 2, 3]);
+        let mut d = v.drain(..);
+        let first = d.as_slice()[0];
+        let _ = d.next();
+        drop(d);
+        first
+    }
+}
+//@ guard_deref_outlives_guard must_fail row=<string::RefMut<'_, '_, B> as Deref>::deref
+pub mod guard_deref_outlives_guard {
+    use super::*;
+    // a `&String` obtained from the `mutate` guard dies with the guard
+    pub fn f(h: &mut HipStr<'static>) -> usize {
+        let g = h.mutate();
+        let s: &String = &*g;
+        drop(g);
+        s.len()
+    }
+}
+//@ guard_deref_inside must_compile row=-
+pub mod guard_deref_inside {
+    use super::*;
+    pub fn f(h: &mut HipStr<'static>) -> usize {
+        let g = h.mutate();
+        let s: &String = &*g;
+        let n = s.len();
+        drop(g);
+        n
+    }
+}
